@@ -142,8 +142,14 @@ func main() {
 			if s.Truncated && pass == 1 {
 				again = append(again, h)
 			}
-			if old := sums[h]; old != nil && old.Paths > s.Paths {
-				continue // keep the larger exploration
+			if old := sums[h]; old != nil {
+				// counterexamples are recorded once per label (saturation), so
+				// those of the first pass must be carried over
+				if old.Paths > s.Paths {
+					old.Violations = append(old.Violations, s.Violations...)
+					continue // keep the larger exploration
+				}
+				s.Violations = append(s.Violations, old.Violations...)
 			}
 			sums[h] = s
 			fmt.Printf("harness %s: paths=%d ends=%v asserts=%d queries=%d (sat %d unsat %d unknown %d) solver=%.1fs wall=%.1fs truncated=%v\n",
